@@ -37,6 +37,8 @@ static void reply(int64_t result, uint64_t hash, int64_t total) {
 }
 
 int main(void) {
+  int start_mask = 0;
+  for (int fd = 0; fd < 3; fd++) if (fcntl(fd, F_GETFD) != -1) start_mask |= 1 << fd;
   signal(SIGPIPE, SIG_IGN); /* a write to a closed pipe is reported, not fatal */
   set_nonblock(0);
   set_nonblock(1);
@@ -55,7 +57,7 @@ int main(void) {
           in_total += n;
           reply(n, in_hash, in_total);
         } else if (n == 0) reply(0, in_hash, in_total);
-        else reply((errno == EAGAIN || errno == EWOULDBLOCK) ? -1 : -2, in_hash, in_total);
+        else reply((errno == EAGAIN || errno == EWOULDBLOCK) ? -1 : errno == EBADF ? -3 : -2, in_hash, in_total);
         break;
       }
       case '1':
@@ -65,10 +67,11 @@ int main(void) {
         for (size_t i = 0; i < want; i++) buf[i] = (char)pattern(s, out_total[s] + (int64_t)i);
         ssize_t n = write(s, buf, want);
         if (n >= 0) { out_total[s] += n; reply(n, 0, out_total[s]); }
-        else reply((errno == EAGAIN || errno == EWOULDBLOCK) ? -1 : -2, 0, out_total[s]);
+        else reply((errno == EAGAIN || errno == EWOULDBLOCK) ? -1 : errno == EBADF ? -3 : -2, 0, out_total[s]);
         break;
       }
       case 'C': close(c.arg); reply(0, 0, 0); break;
+      case 'F': reply(start_mask, 0, 0); break; /* which of descriptors 0/1/2 were open when this program started */
       case 'X': reply(0, in_hash, in_total); _exit(c.arg);
       case 'K': reply(0, in_hash, in_total); signal(c.arg, SIG_DFL); kill(getpid(), c.arg); for (;;) pause();
       case 'P': reply(0, in_hash, in_total); break; /* time passes: the child lingers without touching its streams */
